@@ -23,7 +23,7 @@ ASSUMPTIONS = [
     "2**32-variant unions cannot be materialised; the 32->64 bit boundary is covered for array prefixes only",
 ]
 MIN_MONITORS = {"bls-minmax": 25000, "bls-mod": 200000, "bls-expand": 15000, "align": 20000, "prefix": 2000, "tag": 1200,
-                "header": 1500, "extent": 4000, "route-agree": 600, "str": 15000}
+                "header": 1500, "extent": 4000, "route-agree": 600, "str": 15000, "service": 600}
 THOROUGH_MIN_SCALE = 8
 
 
@@ -64,9 +64,10 @@ def check_type(ctx, lay, u, tobj, tdesc, case, where, pydsdl):
     return ok
 
 
-def check_universe(ctx, pydsdl, u, objs, case, route):
+def check_universe(ctx, pydsdl, u, objs, case, route, indices=None):
     lay = Layout(u)
-    for idx, (d, obj) in enumerate(zip(u, objs)):
+    for idx, obj in zip(indices if indices is not None else range(len(u)), objs):
+        d = u[idx]
         info = lay.definition(idx)
         where = "%s %s" % (route, d["name"])
         blscmp.compare(ctx, obj.bit_length_set, info["tree"], "C02/bls", where, case)
@@ -126,6 +127,27 @@ def check_universe(ctx, pydsdl, u, objs, case, route):
             check_type(ctx, lay, u, fo.data_type, td, case, "%s.%s" % (where, f.get("name", "void")), pydsdl)
 
 
+def check_service(ctx, pydsdl, u, sobj, svc, case, route):
+    """Each section of a service is a composite of its own with the layout of the definition whose body it repeats."""
+    ctx.mon("service")
+    where = "%s %s" % (route, GT.SERVICE_NAME)
+    if type(sobj) is not pydsdl.ServiceType:
+        ctx.violation("C02/kind", "%s: %s expected ServiceType" % (where, type(sobj).__name__), case)
+        return
+    try:
+        sobj.bit_length_set
+        ctx.violation("C02/kind", "%s: a service type reports a bit length set of its own" % where, case)
+    except TypeError:
+        pass
+    secs = [(sobj.request_type, svc[0], "Request"), (sobj.response_type, svc[1], "Response")]
+    if [f.name for f in sobj.fields] != ["request", "response"] or sobj.fields[0].data_type is not secs[0][0] or sobj.fields[1].data_type is not secs[1][0]:
+        ctx.violation("C02/fields", "%s: pseudo-fields %r" % (where, [str(f) for f in sobj.fields]), case)
+    for obj, idx, nm in secs:
+        if obj.full_name != GT.SERVICE_NAME + "." + nm or not obj.has_parent_service or obj.inner_type.has_parent_service is not True:
+            ctx.violation("C02/kind", "%s: section %s is named %r (parent service: %r)" % (where, nm, obj.full_name, obj.has_parent_service), case)
+        check_universe(ctx, pydsdl, u, [obj], case, "%s.%s" % (route, nm), indices=[idx])
+
+
 def route_signature(objs):
     out = []
     for o in objs:
@@ -144,16 +166,35 @@ def run_case(ctx, pydsdl, u, text_ok, seed, workdir):
         ctx.violation("C02/rejected", "constructors rejected a valid universe: %r" % ex, case)
         return
     check_universe(ctx, pydsdl, u, routes["ctor"], case, "ctor")
+    svc = None
+    if seed % 3 == 0:
+        # a service whose request / response sections repeat the bodies of two definitions of the universe
+        r2 = random.Random(seed ^ 0x5EC)
+        svc = (r2.randrange(len(u)), r2.randrange(len(u)))
+        case["service"] = svc
+        try:
+            check_service(ctx, pydsdl, u, GT.construct_service(pydsdl, u, routes["ctor"], *svc), svc, case, "ctor")
+        except pydsdl.InvalidDefinitionError as ex:
+            ctx.violation("C02/rejected", "constructors rejected a valid service: %r" % ex, case)
     if text_ok:
         d = workdir / "t"
         try:
-            routes["text"] = GT.read_universe(pydsdl, u, d, random.Random(seed))
+            if svc:
+                (d / GT.SERVICE_PATH).parent.mkdir(parents=True, exist_ok=True)
+                (d / GT.SERVICE_PATH).write_text(GT.service_text(u, svc[0], svc[1], random.Random(seed + 1)))
+            routes["text"] = GT.read_universe(pydsdl, u, d, random.Random(seed), extras=routes.setdefault("extras", {}))
         except pydsdl.InvalidDefinitionError as ex:
             ctx.violation("C02/rejected", "read_namespace rejected a valid universe: %r" % ex, case)
             return
         finally:
             shutil.rmtree(d, ignore_errors=True)
         check_universe(ctx, pydsdl, u, routes["text"], case, "text")
+        if svc:
+            sobj = routes["extras"].get((GT.SERVICE_NAME, 1, 0))
+            if sobj is None:
+                ctx.violation("C02/fields", "read_namespace did not return the service definition", case)
+            else:
+                check_service(ctx, pydsdl, u, sobj, svc, case, "text")
         ctx.mon("route-agree")
         a, b = route_signature(routes["ctor"]), route_signature(routes["text"])
         if a != b:
